@@ -143,7 +143,7 @@ func metricsPerScopeSweep(prop, name string, tier string, judge map[string]bool)
 // width: the same derivation again, the grouping "all tags at once from the root", a sibling from the same parent
 // and an override of the first tag are derived, each records a distinct amount, and one pass at the end must
 // deliver every amount under exactly the identity the derivation denotes.
-func tagChainSweep(prop, name string, tier string) *SeqJob {
+func tagChainSweep(prop, name string, tier string, snapshot bool) *SeqJob {
 	maxW := tierInt(tier, 40, 72)
 	orders := []string{"ascending", "descending", "shuffled", "ascending-root-tag"}
 	run := func(order string, shards uint, cached bool) (string, string, int) {
@@ -154,7 +154,15 @@ func tagChainSweep(prop, name string, tier string) *SeqJob {
 			rootTags = map[string]string{"root": "r"}
 			o.Tags = cloneTags(rootTags)
 		}
-		root, _ := tally.VerifNewRootScope(o, 0, shards)
+		var root tally.Scope
+		var ts tally.TestScope
+		if snapshot {
+			// a test scope: what was recorded is read from a snapshot (cached selects nothing here)
+			ts = tally.VerifNewTestScopeOpts(tally.ScopeOptions{Tags: o.Tags}, shards)
+			root = ts
+		} else {
+			root, _ = tally.VerifNewRootScope(o, 0, shards)
+		}
 		keys := make([]string, maxW)
 		for i := range keys {
 			keys[i] = fmt.Sprintf("key%02d", i)
@@ -221,8 +229,19 @@ func tagChainSweep(prop, name string, tier string) *SeqJob {
 				return "key-of-maps-differs-from-key-of-merged-map", fmt.Sprintf("%d tags: key(parent tags, override) = %q, key(merged) = %q", w, b, a), steps
 			}
 		}
-		tally.VerifReportOnce(root)
-		got := sumCounters(rec.Log, 0, len(rec.Log))
+		var got map[string]int64
+		if snapshot {
+			got = map[string]int64{}
+			for key, e := range ts.Snapshot().Counters() {
+				if tally.KeyForPrefixedStringMap(e.Name(), e.Tags()) != key {
+					return "snapshot-key-differs-from-entry", fmt.Sprintf("entry %q %s is filed under key %q", e.Name(), tagString(e.Tags()), key), steps
+				}
+				got[e.Name()+tagString(e.Tags())] += e.Value()
+			}
+		} else {
+			tally.VerifReportOnce(root)
+			got = sumCounters(rec.Log, 0, len(rec.Log))
+		}
 		for id, w := range want {
 			if got[id] != w {
 				return "delivered-under-wrong-identity", fmt.Sprintf("%s key order, up to %d tags, %d shards, %s reporter: %d recorded through derivations denoting %s, %d delivered under it", order, maxW, shards, b2s(cached), w, id, got[id]), steps
@@ -241,6 +260,9 @@ func tagChainSweep(prop, name string, tier string) *SeqJob {
 		for _, order := range orders {
 			for _, shards := range []uint{1, 4} {
 				for _, cached := range []bool{false, true} {
+					if snapshot && cached {
+						continue
+					}
 					// Go's map iteration order is not controlled in this build: each configuration is repeated
 					for rep := 0; rep < tierInt(tier, 4, 16); rep++ {
 						k++
